@@ -1,6 +1,7 @@
 import AsynqModel.Sexp
 import AsynqModel.Drv.Futures
 import AsynqModel.Drv.Core
+import AsynqModel.Drv.Contexts
 import AsynqModel.Drv.Threads
 import AsynqModel.Drv.Asyncio
 import AsynqModel.Drv.Decorators
@@ -90,6 +91,7 @@ def handleCase (mode : String) (id : Nat) (hdr body : List Sexp) : String :=
   | "futures" => Drv.Futures.handle id hdr body
   | "futsubs" => Drv.Futures.handleSubs id hdr body
   | "core" => Drv.Core.handle id hdr body
+  | "ctxhist" => Drv.Contexts.handle id hdr body
   | "threads" => Drv.Threads.handle id hdr body
   | "asyncio" => Drv.Asyncio.handle id hdr body
   | "decorators" => Drv.Decorators.handle id hdr body
